@@ -56,11 +56,19 @@ class NoRepo:
 class SymMembership(list):
     """A list setting whose membership test / truthiness is symbolic."""
 
-    def __init__(self, member, nonempty, sym):
-        super().__init__(['<symbolic members>'])
+    def __init__(self, member, nonempty, sym, probe=None):
+        if sym or probe is None:
+            super().__init__(['<symbolic members>'])
+        else:
+            # concrete replay: a real list; a non-member is still a near miss
+            # (substring / different case) of an entry
+            super().__init__([probe, 'ZZZ'] if member else ['X' + probe + 'X', probe.lower() + '_', 'ZZZ'])
         self.member, self.nonempty, self.sym = member, nonempty, sym
+        self.real = not sym and probe is not None
 
     def __contains__(self, x):
+        if getattr(self, 'real', False):
+            return list.__contains__(self, x)
         return bool(SBool(self.member)) if self.sym else bool(self.member)
 
     def __bool__(self):
@@ -139,15 +147,28 @@ def run(si, ti, vals, sym):
             fields=types.SimpleNamespace(
                 issuetype=types.SimpleNamespace(name='Bug'),
                 fixVersions=FixVersions(universe, vals['fixv'], sym)))
+    # memberships: the solver decides, the setting is a REAL list / dict built
+    # accordingly (a non-member is a near miss: substring / other case)
+    D = (lambda k: Ctx.cur.decide(vals[k])) if sym else (lambda k: bool(vals[k]))
+    probe = project or 'NOPROJECT'
+    if D('jira_keys_set'):
+        jira_keys = [probe, 'ZZZ'] if D('project_known') else ['X' + probe + 'X', probe.lower() + '_', 'ZZZ']
+    else:
+        jira_keys = []
+    bypass_prefixes = [src.prefix] if D('prefix_bypassed') else ['x' + src.prefix, src.prefix + 'x']
+    if D('prefixes_set'):
+        prefixes = {'Bug': 'bugfix', 'Story': 'feature'} if D('type_known') else {'Buggy': 'bugfix', 'bug': 'x'}
+    else:
+        prefixes = {}
     job = PullRequestJob.__new__(PullRequestJob)
     job.settings = SettingsDict(
         {'bypass_jira_check': Bv('bypass_jira_check')},
         dict(pr_author_options=pao,
-             bypass_prefixes=SymMembership(vals['prefix_bypassed'], True, sym),
-             jira_keys=SymMembership(vals['project_known'], vals['jira_keys_set'], sym),
+             bypass_prefixes=bypass_prefixes,
+             jira_keys=jira_keys,
              jira_email=Truthy(vals['jira_email_set'], sym),
              jira_account_url=Truthy(vals['jira_url_set'], sym), jira_token='tok',
-             prefixes=SymDict(vals['type_known'], vals['prefixes_set'], sym),
+             prefixes=prefixes,
              disable_version_checks=Bv('disable_version_checks'), robot='robot'))
     job.pull_request = types.SimpleNamespace(author='author', id=1)
     job.git = types.SimpleNamespace(
